@@ -672,14 +672,19 @@ func (c *Ctx) decoderErr(v ssa.Value, d int) bool {
 // loop: if it can come back to the check, a later matching rule overrides the first one.
 func (c *Ctx) firstMatchingRuleDecides(r *Rule, isSpam *ssa.Function) {
 	var checks []ssa.CallInstruction
-	for _, ci := range callsIn(isSpam) {
+	scope := append([]*ssa.Function{isSpam}, allAnon(isSpam)...)
+	var allCalls []ssa.CallInstruction
+	for _, f := range scope {
+		allCalls = append(allCalls, callsIn(f)...)
+	}
+	for _, ci := range allCalls {
 		cc := ci.Common()
 		isCheck := cc.IsInvoke() && cc.Method.Name() == "Check"
 		if f := cc.StaticCallee(); f != nil && f.Name() == "Check" && c.pkgOf(f) == "pipeline/doif" {
 			isCheck = true
 		}
 		if isCheck {
-			if cyc, _ := c.pathExists(isSpam, ci, func(in ssa.Instruction) bool { return in == ssa.Instruction(ci) }, nil); cyc {
+			if cyc, _ := c.pathExists(ci.Parent(), ci, func(in ssa.Instruction) bool { return in == ssa.Instruction(ci) }, nil); cyc {
 				checks = append(checks, ci)
 			}
 		}
@@ -692,9 +697,10 @@ func (c *Ctx) firstMatchingRuleDecides(r *Rule, isSpam *ssa.Function) {
 	val, _ := chk.(ssa.Value)
 	back := false
 	var at ssa.Instruction
-	for _, b := range isSpam.Blocks {
+	loopFn := chk.Parent()
+	for _, b := range loopFn.Blocks {
 		matched := false
-		for _, l := range unitLits(c.guards(isSpam)[b]) {
+		for _, l := range unitLits(c.guards(loopFn)[b]) {
 			if l.v == val && l.pol {
 				matched = true
 			}
@@ -702,7 +708,7 @@ func (c *Ctx) firstMatchingRuleDecides(r *Rule, isSpam *ssa.Function) {
 		if !matched || len(b.Instrs) == 0 {
 			continue
 		}
-		if again, _ := c.pathExists(isSpam, b.Instrs[0], func(in ssa.Instruction) bool { return in == ssa.Instruction(chk) }, nil); again {
+		if again, _ := c.pathExists(loopFn, b.Instrs[0], func(in ssa.Instruction) bool { return in == ssa.Instruction(chk) }, nil); again {
 			back, at = true, b.Instrs[0]
 		}
 	}
